@@ -117,7 +117,9 @@ def load_known(prop):
             if not line or line.startswith("#"):
                 continue
             e = json.loads(line)
-            if e.get("property") != prop:
+            # obligation names are globally unique: a finding recorded under one property also explains the same
+            # obligation when another property's check includes it (e.g. C03 includes the C05 rule obligations)
+            if e.get("property") != prop and e.get("status") == "fixed":
                 continue
             (fixed if e.get("status") == "fixed" else finds).append(e)
     return finds, fixed
